@@ -163,3 +163,62 @@ Qed.
 
 Lemma E_W : forall z k, E z k = - W z k.
 Proof. intros. unfold E, W, py_timedelta_minutes. lia. Qed.
+
+(* ---- round trip ----------------------------------------------------------------------------------- *)
+
+(* the offset recovered from the local time (with the favor that fromutc attaches) is the offset that
+   produced it *)
+Lemma roundtrip_offset : forall oob z ts, zone_facts z ->
+  let e := E z (zone_index oob z ts) in
+  E z (zone_index_dt oob z (ts + e) (Some e)) = e.
+Proof.
+  intros oob z ts F. cbv zeta.
+  destruct (zone_index_spec oob z ts F) as [Hj [Hj1 Hj2]]. cbv zeta in *.
+  set (j := zone_index oob z ts) in *.
+  destruct (zone_index_dt_eq oob z (ts + E z j) (Some (E z j)) F) as [[Hi [Hi1 Hi2]] Heq]. cbv zeta in *.
+  set (L := ts + E z j) in *.
+  set (i := py_bisect_right (z_offset_untils z) L) in *.
+  rewrite Heq. clear Heq.
+  assert (HL : L = ts - W z j) by (unfold L; rewrite E_W; lia).
+  assert (Hij : i <= j).
+  { destruct (Z_lt_le_dec j i) as [Hlt|]; [|assumption].
+    specialize (Hj2 j ltac:(lia)). specialize (Hi1 j ltac:(lia)). unfold OU in Hi1. lia. }
+  destruct (Z.eq_dec i j) as [Eij|Nij].
+  - (* the local time is found in its own interval, or in the next one with an equal offset *)
+    destruct (i <? nZ z); cbn [andb]; [|rewrite Eij; reflexivity].
+    destruct (TH z i <=? L); cbn [andb]; [|rewrite Eij; reflexivity].
+    destruct (py_opt_eqb Z.eqb (Some (E z (i + 1))) (Some (E z j))) eqn:Eeq; [|rewrite Eij; reflexivity].
+    cbn [py_opt_eqb] in Eeq. apply Z.eqb_eq in Eeq. exact Eeq.
+  - (* i < j: the local time lies before the local end of an earlier interval; that interval is j-1 *)
+    assert (Hi_lt : i < nZ z) by lia.
+    specialize (Hi2 i ltac:(lia)).
+    specialize (Hj1 (j - 1) ltac:(lia)).
+    assert (Ei : i = j - 1).
+    { destruct (Z_lt_le_dec i (j - 1)) as [Hlt|]; [|lia].
+      pose proof (zf_OU z F i (j - 2) ltac:(lia) ltac:(lia) ltac:(lia)) as Hm.
+      pose proof (zf_A z F (j - 2) ltac:(lia) ltac:(lia)) as Ha.
+      replace (j - 2 + 1) with (j - 1) in Ha by lia. unfold TH in Ha.
+      replace (j - 1 + 1) with j in Ha by lia. lia. }
+    replace (i <? nZ z) with true by (symmetry; apply Z.ltb_lt; lia).
+    replace (TH z i <=? L) with true.
+    2:{ symmetry. apply Z.leb_le. unfold TH. rewrite Ei. replace (j - 1 + 1) with j by lia. lia. }
+    replace (i + 1) with j by lia. cbn [andb py_opt_eqb]. rewrite Z.eqb_refl. reflexivity.
+Qed.
+
+Theorem zone_ok_sound : forall z, zone_ok z = true ->
+  forall oob ts, dt_to_ts oob z (ts_to_dt oob ts z) = ts.
+Proof.
+  intros z Hok oob ts. pose proof (zone_ok_facts z Hok) as F.
+  unfold dt_to_ts, tz_utcoffset, ts_to_dt, tz_fromutc, py_utc_to_ts_ms. cbn [dt_local dt_favor].
+  rewrite zone_offset_eq by exact F. rewrite zone_dt_offset_eq by exact F.
+  pose proof (roundtrip_offset oob z ts F) as H. cbv zeta in H. rewrite H. lia.
+Qed.
+
+(* ts_to_dt shows the offset of the interval that contains the instant *)
+Theorem ts_to_dt_spec : forall z, zone_ok z = true -> forall oob ts,
+  exists k, in_interval z k ts /\ ts_to_dt oob ts z = mk_adt (ts + E z k) (Some (E z k)).
+Proof.
+  intros z Hok oob ts. pose proof (zone_ok_facts z Hok) as F.
+  exists (zone_index oob z ts). split; [apply zone_index_in_interval; exact F|].
+  unfold ts_to_dt, tz_fromutc, py_utc_to_ts_ms. rewrite zone_offset_eq by exact F. reflexivity.
+Qed.
